@@ -1,5 +1,7 @@
 import OmplModel.Model.Control
 import OmplModel.Model.CRRT
+import OmplModel.Model.CSST
+import OmplModel.Model.ControlExtra
 import OmplModel.Model.ControlSys
 import OmplModel.Driver.Common
 /-!
@@ -69,6 +71,7 @@ def pKind : P Kind := do
   | "point" => pure .point
   | "uni" => pure .uni
   | "dint" => pure .dint
+  | "car" => pure .car
   | _ => failure
 
 def allLt (lo hi : Array F) : Bool := (List.range lo.size).all fun i => g lo i < g hi i
@@ -220,6 +223,11 @@ def opPinterp : P String := do
   let (c, _, p) ← pPathArgs
   pure (showPath c.dt (p.interpolate (ControlSys.step c.kind c.dt)))
 
+def opPgeom : P String := do
+  let (c, _, p) ← pPathArgs
+  let gs := p.asGeometric (ControlSys.step c.kind c.dt)
+  pure (s!"geom n={gs.length}" ++ String.join (gs.map fun s => " " ++ showReals s))
+
 /-- the spec oracle `replayOK` (Model/Control.lean) on a path printed by the implementation -/
 def opReplayOk : P String := do
   let (c, boxes, p) ← pPathArgs
@@ -289,6 +297,12 @@ def opRrtPlay : P String := do
   guardP (ns ≥ 1 && ns ≤ 16)
   let starts ← pMany (pReals c.kind.nreals) ns
   expect "goal"
+  let gk ← (do
+    match (← tok) with
+    | "pos" => pure GoalKind.pos
+    | "pred" => pure GoalKind.pred
+    | "l1" => pure GoalKind.l1
+    | _ => failure)
   let goal ← pReals c.kind.nreals
   let thr ← pF
   let inter ← pKVNat "inter"
@@ -301,7 +315,7 @@ def opRrtPlay : P String := do
   let step := ControlSys.step c.kind c.dt
   let P : Problem (Array F) (Array F) F :=
     { step, valid, dist := ControlSys.dist c.kind, lt := fun a b => a < b, inf := 1.0 / 0.0,
-      goal := goalTest goal thr, goalSample := goal, nullControl := nullControl c,
+      goal := goalTest gk 1.7976931348623157e308 goal thr, goalSample := goal, nullControl := nullControl c,
       minSteps := c.minSteps, intermediate := inter != 0 }
   let r := solve P starts draws.toList
   let has := r.path.isSome
@@ -311,9 +325,94 @@ def opRrtPlay : P String := do
     s!" cb {floatBits (g c.clo 0)} {floatBits (g c.clo 1)} {floatBits (g c.chi 0)} {floatBits (g c.chi 1)}" ++
     s!" dt={floatBits c.dt} min={c.minSteps} max={c.maxSteps}"
   let pth := match r.path with
-    | some p => s!" libcheck={if p.check step valid (closeF c.kind) then 1 else 0} path {showPath c.dt p}"
-    | none => " libcheck=- path none"
+    | some p =>
+      let inside := match p.states.getLast? with
+        | some l => (P.goal l).1
+        | none => false
+      s!" libcheck={if p.check step valid (closeF c.kind) then 1 else 0} insidegoal={if inside then 1 else 0} path {showPath c.dt p}"
+    | none => " libcheck=- insidegoal=- path none"
   pure (hd ++ pth ++ " | " ++ showTree r.tree)
+
+/-! ### control SST on recorded draws -/
+
+partial def pSstDraws (acc : Array (CSST.Draw (Array F) (Array F))) (nreals : Nat) :
+    P (Array (CSST.Draw (Array F) (Array F))) := do
+  match (← get) with
+  | [] => pure acc
+  | _ =>
+    let t ← tok
+    let (useGoal, sample) ←
+      if t == "G" then pure (true, (#[] : Array F))
+      else if t == "U" then do
+        let r ← pReals nreals
+        pure (false, r)
+      else failure
+    expect "C"
+    let u ← pReals 2
+    expect "K"
+    let k ← pN
+    guardP (k ≤ 100000)
+    pSstDraws (acc.push { useGoal, sample, control := u, steps := k }) nreals
+
+def pKVF (key : String) : P F := do
+  match parseFloatBits? (← pKV key) with
+  | some x => pure x
+  | none => failure
+
+def opSstPlay : P String := do
+  let c ← pSys
+  let boxes ← pEnv
+  expect "starts"
+  let ns ← pN
+  guardP (ns ≥ 1 && ns ≤ 16)
+  let starts ← pMany (pReals c.kind.nreals) ns
+  expect "goal"
+  let gk ← (do
+    match (← tok) with
+    | "pos" => pure GoalKind.pos
+    | "pred" => pure GoalKind.pred
+    | "l1" => pure GoalKind.l1
+    | _ => failure)
+  let goal ← pReals c.kind.nreals
+  let thr ← pF
+  let sel ← pKVF "sel"
+  let prune ← pKVF "prune"
+  guardP (sel ≥ 0 && prune ≥ 0)
+  expect "draws"
+  let draws ← pSstDraws #[] c.kind.nreals
+  let valid := ControlSys.valid c eps boxes
+  let step := ControlSys.step c.kind c.dt
+  let P : CSST.Problem (Array F) (Array F) F :=
+    { step, valid, dist := ControlSys.dist c.kind, lt := fun a b => a < b, le := fun a b => a ≤ b, inf := 1.0 / 0.0,
+      zero := 0.0, add := fun a b => a + b, motionCost := ControlSys.dist c.kind,
+      costSatisfied := fun x => x < 0.0,      -- OptimizationObjective's default threshold_ = 0
+      goal := goalTest gk 1.7976931348623157e308 goal thr, goalSample := goal, nullControl := nullControl c,
+      selectionRadius := sel, pruningRadius := prune }
+  let r := CSST.solve P starts draws.toList
+  let has := r.path.isSome
+  let hd := s!"status={statusName r.status} has={if has then 1 else 0} approx={if r.status == .approximate then 1 else 0}" ++
+    s!" dif={floatBits (if !has then -1.0 else if r.status == .approximate then r.dif else 0.0)}" ++
+    s!" cb {floatBits (g c.clo 0)} {floatBits (g c.clo 1)} {floatBits (g c.chi 0)} {floatBits (g c.chi 1)}" ++
+    s!" dt={floatBits c.dt} min={c.minSteps} max={c.maxSteps}"
+  let pth := match r.path with
+    | some p =>
+      let inside := match p.states.getLast? with
+        | some l => (P.goal l).1
+        | none => false
+      s!" libcheck={if p.check step valid (closeF c.kind) then 1 else 0} insidegoal={if inside then 1 else 0} path {showPath c.dt p}"
+    | none => " libcheck=- insidegoal=- path none"
+  let st := r.final
+  let pos := fun (i : Nat) => match st.nn.idxOf? i with | some j => toString j | none => "x"
+  let tree := s!"tree {st.nn.length}" ++ String.join (st.nn.map fun i =>
+    match st.tree[i]? with
+    | none => " [?]"
+    | some m =>
+      s!" [{showReals m.state} ; {showReals m.control} ; {m.steps} ; " ++
+        (match m.parent with | none => "-" | some p => pos p) ++
+        s!" ; {floatBits (st.cost.getD i 0.0)} ; {st.nchild.getD i 0} ; {if st.inactive.getD i false then 1 else 0}]")
+  let wits := s!"wits {st.wits.size}" ++ String.join (st.wits.toList.map fun w =>
+    s!" [{showReals w.state} ; " ++ (match w.rep with | none => "-" | some rp => pos rp) ++ "]")
+  pure (hd ++ pth ++ " | " ++ tree ++ " | " ++ wits)
 
 def init (ts : List String) : Option Unit :=
   match ts with
@@ -331,8 +430,10 @@ def step (_ : Unit) (ts : List String) : Unit × String :=
   | "prop" :: rest => ((), runP (opPwv false) rest)
   | "pcheck" :: rest => ((), runP opPcheck rest)
   | "pinterp" :: rest => ((), runP opPinterp rest)
+  | "pgeom" :: rest => ((), runP opPgeom rest)
   | "replayok" :: rest => ((), runP opReplayOk rest)
   | "rrtplay" :: rest => ((), runP opRrtPlay rest)
+  | "sstplay" :: rest => ((), runP opSstPlay rest)
   | _ => ((), "bad-op")
 
 end OmplModel.Driver.ControlDrv
